@@ -26,6 +26,11 @@ size_t libwifi_add_action_detail(struct libwifi_action_detail *detail, const uns
         return detail->detail_length;
     }
 
+    // The detail length is an 8-bit field: refuse what it could not describe
+    if (data_len > (size_t) UINT8_MAX - detail->detail_length) {
+        return -EINVAL;
+    }
+
     // Keep the existing detail when the allocation fails
     char *buf = NULL;
     if (detail->detail_length != 0) {
